@@ -4,6 +4,7 @@ package main
 
 import (
 	"fmt"
+	"go/constant"
 	"go/token"
 	"go/types"
 
@@ -45,7 +46,7 @@ func runC12(c *Ctx) {
 	c.Explanation = "Decides: (R-INPUT-IMMUTABLE) none of LCS/LCSFunc/LIS/LISFunc/LNDS/LNDSFunc/bisectRight/EditScript/editScriptFunc (nor their closures) can write through its input: every element store, copy destination, append base, clear, and every slice passed to a mutating callee (summaries computed from the callee bodies; frozen table for the standard library) has a provenance of allocations made inside the function. (R-LEAN-AGREE) in each of LISFunc and LNDSFunc the strictness of the fast-path comparison agrees with the lean of the binary search it falls back to: LNDS = (>=, right-leaning), LIS = (>, left-leaning); the lean of the in-repository search is read from its body. Each wrong pairing is wrong exactly on runs of equal elements. (R-CMP-SIGN) comparison results are tested by sign only; the strict variant takes no shortcut on slices.IsSorted*; (R-SIBLING-GUARD) guards before a comparison of an element of each input constrain both indices or neither. Does NOT decide that results are subsequences of maximum length."
 	c.rule("R-INPUT-IMMUTABLE", 10, "every write event in the subsequence functions goes through a value whose origin is Fresh")
 	c.rule("R-LEAN-AGREE", 4, "LNDSFunc = (>=, Right), LISFunc = (>, Left); LIS/LNDS delegate with cmp.Compare")
-	c.rule("R-CMP-SIGN", 3, "every test of a comparison function's result against a constant is a test of its sign only")
+	c.rule("R-CMP-SIGN", 1, "every test of a comparison function's result against a constant is a test of its sign only")
 	c.assume("user comparison callbacks do not modify the slices (outside the rule)")
 	ruleCmpSign(c, "R-CMP-SIGN", P.PkgFuncs("slice"))
 	ruleSiblingGuard(c, "slice")
@@ -365,9 +366,195 @@ func runC12(c *Ctx) {
 		}
 		return s2, search2, pos2, ""
 	}
+	// semantic form: explore the loop body from the comparison for each sign of its result (and, when the
+	// exported function is a one-line wrapper around a shared helper with a constant flag, for that flag
+	// value): the signs on which the binary search is reached are the complement of the fast path.
+	bySigns := func(fn *ssa.Function) (string, *ssa.Function, token.Pos, string) {
+		g := fn
+		cmpParam := ssa.Value(fn.Params[1])
+		flags := map[ssa.Value]bool{}
+		// wrapper?
+		var hcall *ssa.Call
+		nCalls := 0
+		allInstrs(fn, func(in ssa.Instruction) {
+			if call, ok := in.(*ssa.Call); ok {
+				if h := staticCallee(&call.Call); h != nil && h.Blocks != nil && origin(h).Pkg == origin(fn).Pkg {
+					for _, a := range call.Call.Args {
+						if a == ssa.Value(fn.Params[1]) {
+							hcall = call
+						}
+					}
+					nCalls++
+				}
+			}
+		})
+		if hcall != nil && len(fn.Blocks) == 1 {
+			h := origin(staticCallee(&hcall.Call))
+			g = h
+			for i, a := range hcall.Call.Args {
+				if i >= len(h.Params) {
+					break
+				}
+				if a == ssa.Value(fn.Params[1]) {
+					cmpParam = h.Params[i]
+				}
+				if k, ok := a.(*ssa.Const); ok && k.Value != nil && k.Value.Kind() == constant.Bool {
+					flags[h.Params[i]] = constant.BoolVal(k.Value)
+				}
+			}
+		}
+		isCmpVal := func(v ssa.Value) bool {
+			if v == cmpParam {
+				return true
+			}
+			if addr, ok := loadAddr(v); ok {
+				if al, ok := addr.(*ssa.Alloc); ok {
+					for _, r := range referrersOf(al) {
+						if st, ok := r.(*ssa.Store); ok && st.Addr == al && st.Val == cmpParam {
+							return true
+						}
+					}
+				}
+			}
+			return false
+		}
+		var cmpCall *ssa.Call
+		for _, b := range g.Blocks {
+			for _, in := range b.Instrs {
+				if call, ok := in.(*ssa.Call); ok && isCmpVal(call.Call.Value) && cmpCall == nil {
+					// the comparison whose result steers a branch
+					for _, r := range referrersOf(call) {
+						if bo, ok := r.(*ssa.BinOp); ok {
+							if _, isK := constInt(bo.Y); isK {
+								cmpCall = call
+							}
+						}
+					}
+				}
+			}
+		}
+		if cmpCall == nil {
+			return "", nil, 0, "no comparison steering a branch"
+		}
+		isSearch := func(in ssa.Instruction) *ssa.Function {
+			call, ok := in.(*ssa.Call)
+			if !ok {
+				return nil
+			}
+			cal := call.Call.StaticCallee()
+			if cal == nil {
+				return nil
+			}
+			o := origin(cal)
+			if (o.Pkg != nil && o.Pkg.Pkg.Path() == "slices" && o.Name() == "BinarySearchFunc") || (o.Pkg != nil && o.Pkg.Pkg.Path() == "sort" && o.Name() == "Search") || (o.Blocks != nil && o.Pkg != nil && o.Pkg.Pkg.Name() == "slice" && o != origin(g) && len(o.Params) == 3) {
+				return o
+			}
+			return nil
+		}
+		evalBool := func(v ssa.Value, sign int64) (bool, bool) {
+			neg := false
+			for {
+				if u, ok := v.(*ssa.UnOp); ok && u.Op == token.NOT {
+					neg = !neg
+					v = u.X
+					continue
+				}
+				break
+			}
+			if b, ok := flags[v]; ok {
+				return b != neg, true
+			}
+			if bo, ok := v.(*ssa.BinOp); ok && bo.X == ssa.Value(cmpCall) {
+				if k, isK := constInt(bo.Y); isK {
+					var r bool
+					switch bo.Op {
+					case token.LSS:
+						r = sign < k
+					case token.LEQ:
+						r = sign <= k
+					case token.GTR:
+						r = sign > k
+					case token.GEQ:
+						r = sign >= k
+					case token.EQL:
+						r = sign == k
+					case token.NEQ:
+						r = sign != k
+					default:
+						return false, false
+					}
+					return r != neg, true
+				}
+			}
+			return false, false
+		}
+		cb := cmpCall.Block()
+		reached := map[int64]*ssa.Function{}
+		ambiguous := false
+		for _, sign := range []int64{-1, 0, 1} {
+			seen := map[*ssa.BasicBlock]bool{}
+			var visit func(b *ssa.BasicBlock, first bool)
+			visit = func(b *ssa.BasicBlock, first bool) {
+				if !first && (seen[b] || b == cb || b.Dominates(cb)) {
+					return
+				}
+				seen[b] = true
+				start := 0
+				if first {
+					for i, in := range b.Instrs {
+						if in == ssa.Instruction(cmpCall) {
+							start = i + 1
+						}
+					}
+				}
+				for _, in := range b.Instrs[start:] {
+					if f := isSearch(in); f != nil {
+						if prev, ok := reached[sign]; ok && prev != f {
+							ambiguous = true
+						}
+						reached[sign] = f
+					}
+				}
+				if iff, ok := b.Instrs[len(b.Instrs)-1].(*ssa.If); ok {
+					if v, known := evalBool(iff.Cond, sign); known {
+						if v {
+							visit(b.Succs[0], false)
+						} else {
+							visit(b.Succs[1], false)
+						}
+						return
+					}
+				}
+				for _, s := range b.Succs {
+					visit(s, false)
+				}
+			}
+			visit(cb, true)
+		}
+		if ambiguous {
+			return "", nil, cmpCall.Pos(), "more than one search routine is reachable for one outcome of the comparison"
+		}
+		_, n := reached[-1]
+		_, z := reached[0]
+		_, p := reached[1]
+		switch {
+		case n && z && !p && reached[-1] == reached[0]:
+			return "GT", reached[-1], cmpCall.Pos(), ""
+		case n && !z && !p:
+			return "GE", reached[-1], cmpCall.Pos(), ""
+		}
+		return "", nil, cmpCall.Pos(), fmt.Sprintf("the search is reached for comparison results <0:%v =0:%v >0:%v", n, z, p)
+	}
 	for _, tc := range []struct{ name, wantS, wantL string }{{"LNDSFunc", "GE", "Right"}, {"LISFunc", "GT", "Left"}} {
 		fn := P.Func("slice", "", tc.name)
 		s, search, pos, why := strict(fn)
+		if s == "" || search == nil {
+			if s2, search2, pos2, why2 := bySigns(fn); s2 != "" && search2 != nil {
+				s, search, pos, why = s2, search2, pos2, why2
+			} else if why == "" {
+				why = why2
+			}
+		}
 		key := "slice." + tc.name + ":strictness/lean"
 		if s == "" || search == nil {
 			c.undecided("R-LEAN-AGREE", key, fn.Pos(), "fast-path comparison or search callee not recognised: "+why)
